@@ -141,6 +141,69 @@ def run(tier):
         if tier == "quick" and ps != 4096:
             # the full patch set on one size, the page-size / key fields on the others
             plist = [p for p in plist if p[0] in KEY_OFFSETS or rnd.random() < 0.12]
+        # "cold": a handle that was opened on the valid file and has not read anything yet when the header turns
+        # unsupported -- its FIRST transaction must already refuse (one handle per patch)
+        cold_sel = [p for p in plist if p[0] in KEY_OFFSETS and (tier == "thorough" or p[1] % 7 == 0 or p[1] < 4)]
+        cbatches, cmarks, cid = [], [], 0
+        for off, val in cold_sel:
+            kind = "hl" if (off + val) % 2 == 0 else "low"
+            # "noop" opens the handle (on the valid file); only then the header changes
+            bops = [{"op": "noop", "id": cid}, {"op": "patch", "off": off, "hex": "%02x" % val, "id": cid + 1}]
+            cid += 2
+            ids = []
+            if kind == "hl":
+                for o in READ_OPS:
+                    bops.append(dict(o, id=cid))
+                    ids.append(cid)
+                    cid += 1
+            else:
+                bops.append({"op": "rlock", "id": cid})
+                cid += 1
+                for o in LOW_OPS:
+                    bops.append(dict(o, no_lock=True, id=cid))
+                    ids.append(cid)
+                    cid += 1
+                bops.append({"op": "runlock", "id": cid})
+                cid += 1
+            bops.append({"op": "patch", "off": off, "hex": "%02x" % hdr[off], "id": cid})
+            cid += 1
+            cbatches.append({"db": path, "mode": "keep", "ops": bops})
+            cmarks.append((off, val, ids, kind))
+        if cbatches:
+            req, out = os.path.join(d, "creq.ndjson"), os.path.join(d, "cres.ndjson")
+            common.write_ndjson(req, cbatches)
+            rc, txt, _ = common.run([h, "ops", req, out], timeout=3000)
+            if rc != 0:
+                raise common.harness_failure(txt)
+            cres = {x["id"]: x for x in common.read_ndjson(out)}
+            if open(path, "rb").read(100) != hdr:
+                raise Infra("base header not restored (cold)")
+            # the reference: the same operations on the valid file, fresh handle
+            req, out = os.path.join(d, "cbreq.ndjson"), os.path.join(d, "cbres.ndjson")
+            nb = len(READ_OPS)
+            common.write_ndjson(req, [{"db": path, "mode": "keep", "ops": [dict(o, id=i) for i, o in enumerate(READ_OPS)]},
+                                      {"db": path, "mode": "keep", "ops": [{"op": "rlock", "id": nb}] + [dict(o, no_lock=True, id=nb + 1 + i) for i, o in enumerate(LOW_OPS)] +
+                                       [{"op": "runlock", "id": nb + 1 + len(LOW_OPS)}]}])
+            rc, txt, _ = common.run([h, "ops", req, out], timeout=600)
+            if rc != 0:
+                raise common.harness_failure(txt)
+            bres = {x["id"]: x for x in common.read_ndjson(out)}
+            cbase = {"hl": summarize([bres[i] for i in range(nb)]), "low": summarize([bres[nb + 1 + i] for i in range(len(LOW_OPS))])}
+            if any(e for e, _, _, _ in cbase["hl"] + cbase["low"]):
+                raise Infra("baseline read (cold reference) failed")
+            for off, val, ids, kind in cmarks:
+                rs = summarize([cres[i] for i in ids])
+                hh = bytearray(hdr)
+                hh[off] = val
+                pan = [p for _, _, _, p in rs if p]
+                if pan:
+                    v.report("C15:panic:off=%d" % off, "panic with header byte %d = %d: %s" % (off, val, pan[0]),
+                             lambda: common.write_replay("C15", "panic-%d-%d.json" % (off, val), {"page_size": ps, "off": off, "val": val}))
+                events.append({"h": list(hh), "basePageSize": ps, "outcome": outcome(rs, cbase[kind]), "mode": "reread"})
+                info.append({"page_size": ps, "off": off, "val": val, "mode": "cold-" + kind, "outcome": events[-1]["outcome"]})
+                parse_reqs.append({"op": "header", "hex": bytes(hh).hex(), "id": len(parse_reqs)})
+                v.nontrivial((ps, off, val if off in KEY_OFFSETS else -1, "cold"))
+                nexp += 1
         for mode in ("open", "reread"):
             ops, marks = [], []
             nid = 0
